@@ -1,5 +1,5 @@
 """C02 — Concurrent logging is exactly-once, mutually exclusive and order-preserving."""
-import concurrent.futures, json, os, re, subprocess
+import concurrent.futures, glob, json, os, re, subprocess
 import vlib
 
 META = {
@@ -26,7 +26,11 @@ META = {
             'extraction (ExtrOcamlBasic) + ocaml/drv_conc.ml; harness/h_conc.cpp (global atomic ticket taken only inside the '
             "harness's own handlers and hook). Modelled, not verified: QMutex/QRecursiveMutex, the C++ memory model (data races "
             'below the granularity of the model are sampled by a TSan run in the thorough tier, supporting evidence only), '
-            'g_activeLogger publication (installed before producers start), recursion of the logger mutex.',
+            'g_activeLogger publication (installed before producers start), recursion of the logger mutex; round 4: Qt posted-event '
+            'FIFO per receiver, QThread::quit()/wait() (returns once the current event is finished), Qt AutoConnection = direct call in '
+            'the receiver\'s thread / queued FIFO otherwise (what the acceptor accept_sig encodes), m_pendingCount abstracted to '
+            '|queue| + worker-inside; resetOwnThread() enters the model only through the ORDER of drain / quit / clear (tools/s2c/conc.py '
+            'checks that the mutex is taken first by a QMutexLocker and released only inside the drain loop).',
     'design_ref': 'DESIGN.md section 4, C02',
     'engine': 'coq+extraction+harness',
 }
@@ -232,6 +236,18 @@ def shrink_config(cfg, still_fails, budget=14):
     return best
 
 
+def corpus_configs():
+    """minimised configurations of past violations (corpus/C02/*.json: lists of configurations), run first"""
+    cfgs = []
+    for f in sorted(glob.glob(os.path.join(vlib.VERIF, 'corpus', 'C02', '*.json'))):
+        try:
+            for c in json.load(open(f)):
+                cfgs.append({k: c.get(k, 0) for k in ('mode', 'n', 'per', 'seed', 'perturb', 'dup', 'stall')})
+        except Exception:
+            pass
+    return [c for c in cfgs if c['mode'] in ALL_MODES and 1 <= c['n'] <= 64 and 1 <= c['per'] <= 5000]
+
+
 def gen_configs(chk, reps, total, heavy=False):
     cfgs = []
     for rep in range(reps):
@@ -269,7 +285,7 @@ def special_configs(chk, reps, total):
     cfgs = []
     for _ in range(reps):
         for mode, n, per in (('throw', 4, 100), ('throwlogger', 4, 100), ('filtered', 4, total // 4), ('filtered', 16, total // 16),
-                             ('pattern', 4, 1500), ('pattern', 8, 750)):
+                             ('pattern', 4, 1500), ('pattern', 8, 750), ('pattern', 2, 4000)):
             cfgs.append({'mode': mode, 'n': n, 'per': per, 'seed': chk.rng.randrange(1, 2 ** 31),
                          'perturb': chk.rng.choice([0, 1, 2]), 'dup': 0, 'stall': 0})
     return cfgs
@@ -298,16 +314,22 @@ def run():
                    'axioms: none (every Print Assumptions: Closed under the global context)',
                    'tools/s2c/conc.py (logger.cpp, ownthreadhandler.h -> SrcConc.v; aborts on unrecognised protocol statements)',
                    'extraction ExtrOcamlBasic, ocaml/drv_conc.ml; harness/h_conc.cpp (tickets taken only in harness code)',
-                   'QMutex / QRecursiveMutex semantics, qInstallMessageHandler dispatch and the C++ memory model are modelled, not verified']
+                   'QMutex / QRecursiveMutex semantics, qInstallMessageHandler dispatch and the C++ memory model are modelled, not verified',
+                   'Qt posted-event FIFO, QThread::quit()/wait(), AutoConnection (direct in the receiver thread, queued FIFO otherwise): modelled '
+                   '(ConcResetDefs.v, ConcSigDefs.v), tied by the recorded traces of scenarios resetwhile / signal*']
     chk.assumptions = ['the logger is installed before the producers start and outlives them (g_activeLogger races are outside C02)',
-                       'handlers do not log recursively; synchronous mode (no worker thread)',
+                       'handlers do not log recursively; synchronous mode (no worker thread) — or a pipeline moved to its own thread ONCE that '
+                       'is reset while producers keep logging (no second moveToOwnThread during the run)',
+                       'signal scenarios: the receiver thread runs an event loop / pumps its queue; receiver-side order is claimed only while '
+                       'the receiver\'s own thread does not log (AutoConnection delivers those directly: theorem C02_signal_home_thread_overtakes)',
                        'lock steps are atomic and mutexes are exclusive (QMutex correctness)']
     proof_ok = chk.proof(vlib.proof_leg('Properties_C02', ['conc']))
     model = vlib.build_model('conc')
     impl = vlib.build_harness('conc')
     thorough = chk.tier == 'thorough'
     total = 2000
-    cfgs = (stall_configs(chk, 1, 1300) + special_configs(chk, 3 if thorough else 1, total) + entry_configs(chk, 6 if thorough else 2, total)
+    corpus = corpus_configs()
+    cfgs = (corpus + stall_configs(chk, 1, 1300) + special_configs(chk, 3 if thorough else 1, total) + entry_configs(chk, 6 if thorough else 2, total)
             + signal_configs(chk, 4 if thorough else 1, total) + reset_configs(chk, 5 if thorough else 1)
             + gen_configs(chk, 17 if thorough else 4, total))
     signal_strict = os.environ.get('VERIF_C02_SIGNAL_STRICT') == '1'
@@ -492,7 +514,7 @@ def run():
                     'signal_sinks': dict(signal_stats, strict_receiver_order_oracle_enabled=signal_strict,
                                          note='S = emission observed by a directly connected functor; Q = reception by a QObject in the main '
                                               'thread connected by the library\'s sendToSignal() (string-based AutoConnection)'),
-                    'reset_while_logging': reset_stats,
+                    'reset_while_logging': reset_stats, 'corpus_configurations': len(corpus),
                     'formatted_texts_compared': fmt_checked,
                     'flush_intervals_recorded': sum(sum(1 for t in r[3] if t[0] == 'F') for r in results),
                     'perturb_histogram': {str(p): sum(1 for r in results if r[0]['perturb'] == p) for p in range(4)},
